@@ -21,8 +21,10 @@ SPELL = {
           "~Version Information (see the LOG_PARAMETER block)"],
     "W": ["~W", "~Well", "~Well Information Block", "~WELL INFORMATION", "~W ----------", "~W----", "~WELLINFO", "~Well_Data", "~WELL_PARAMETER",
           "~Well Information - see also the LOG_PARAMETER block"],
-    "C": ["~C", "~Curve", "~Curve Information", "~CURVE INFORMATION BLOCK", "~C ------", "~C------", "~CURVEINFO"],
-    "P": ["~P", "~Parameter", "~Parameter Information", "~PARAMETER INFORMATION", "~Params ----", "~P----", "~PARAMETERINFO"],
+    "C": ["~C", "~Curve", "~Curve Information", "~CURVE INFORMATION BLOCK", "~C ------", "~C------", "~CURVEINFO", "~Curve_Information",
+          "~CURVE INFORMATION (RUN_1)"],
+    "P": ["~P", "~Parameter", "~Parameter Information", "~PARAMETER INFORMATION", "~Params ----", "~P----", "~PARAMETERINFO",
+          "~Parameter_Information", "~PARAMETER INFORMATION (RUN_1)"],
     "O": ["~O", "~Other", "~Other Information", "~OTHER", "~O ------", "~O----", "~OTHERINFO"],
     "A": ["~A", "~ASCII", "~Ascii Log Data", "~ASCII LOG DATA", "~A  DEPTH  K1", "~A--------", "~ASCIIDATA", "~Ascii-log-data", "~ASCII_LOG_DATA",
           "~ADATA K0 K1"],
@@ -46,7 +48,7 @@ def build(sc):
     exp = {"sections": {}, "order": []}
     for sec in sc["sections"]:
         k = sec["kind"]
-        lines.append(sec["title"])
+        lines.append(sec.get("indent", "") + sec["title"])       # '~' is the first non-blank character of a title line
         if k in ("V", "W", "C", "P", "X"):
             items = [list(it) for it in sec["items"]]
             lines += docmodel.render_items(items, k, vers)
@@ -64,6 +66,8 @@ def build(sc):
         else:
             for n in sec.get("blank_after", []):
                 lines.append(n)
+    if sc.get("ctrlz") and sc["sections"][-1]["kind"] != "O":      # inside ~Other every line is content
+        lines.append(sc["ctrlz"])                # DOS end-of-file mark on a line of its own, whatever the last section is
     return docmodel.join(lines, "\n", sc.get("final_newline", True)), exp
 
 
@@ -148,7 +152,12 @@ class C05(Prop):
                 if s0["kind"] in ("V", "W", "P", "X"):
                     s0["stray"] = g.choice(["stray words without separators", "end of block", "xx"])
                     stray = True
-        return {"pad": g.choice([4100, 4100, 8200]) if g.random() < 0.012 else 1,     # physical data lines longer than 4096 / 8192 characters
+        if g.random() < 0.08:
+            for s0 in [v] + pool:
+                if g.random() < 0.5:
+                    s0["indent"] = g.choice([" ", "  ", "\t"])
+        return {"ctrlz": g.choice(["\x1a", " \x1a"]) if g.random() < 0.05 else None,
+                "pad": g.choice([4100, 4100, 8200]) if g.random() < 0.012 else 1,     # physical data lines longer than 4096 / 8192 characters
                 "stray": stray, "vers": vers, "sections": [v] + pool, "cols": cols, "rows": rows, "final_newline": g.random() < 0.7,
                 "nkw": neutral_read_kw(g, exclude=("ignore_data",)), "engine": g.choice(["numpy", "normal"]), "ignore_data": g.random() < 0.15, "case": g.choice(["preserve", "preserve", "upper", "lower"]),
                 "channel": draw_read_channel(g, ascii_only=True),
